@@ -74,7 +74,7 @@ def c19_oracle(case, impl):
     def drop_answered(t):
         # requests answered without ever starting (start refused, or flushed when the session closed)
         for a in range(n):
-            pending[a][:] = [p for p in pending[a] if not (p[0] in res_of and res_of[p[0]].t <= t and not p[0] in started)]
+            pending[a][:] = [p for p in pending[a] if not (p[0] in res_of and res_of[p[0]].t < t and not p[0] in started)]
 
     started = set()
     for pos, e in enumerate(tl.stream0):
@@ -108,6 +108,11 @@ def c19_oracle(case, impl):
                 bad("one-outstanding", "%s of association %d started at %d while the link status request of association %d was outstanding until %d"
                     % (kind, a, e.t, link_until[1], link_until[0]), e)
             # ---- is it a user request?
+            # requests answered at this very instant without having started were dropped just before
+            for b in range(n):
+                while pending[b] and pending[b][0][0] in res_of and res_of[pending[b][0][0]].t == e.t \
+                        and not (b == a and pending[b][0][1] == kind):
+                    pending[b].pop(0)
             head = pending[a][0] if pending[a] else None
             user = head is not None and head[1] == kind
             older = [b for b in ring if pending[b] and pending[b][0][2] < e.t]
@@ -133,8 +138,12 @@ def c19_oracle(case, impl):
                         bad("keepalive", "keep-alive to association %d at %d, only %d ms after its last activity at %d (timeout %d)"
                             % (a, e.t, e.t - last_rx[a], last_rx[a], c.ka), e)
                 if kind == "poll":
-                    req = [b for b in tl.tx_at(e.t) if len(b) >= 2 and b[1] == 1 and (b[0] & 15) == int(e.f[6])]
-                    key = (a, class_mask(req[0])) if req else None
+                    # the READ requests written at this instant, in order, belong to the READ tasks started
+                    # at this instant, in order
+                    reads = [b for b in tl.tx_at(e.t) if len(b) >= 2 and b[1] == 1]
+                    nth = sum(1 for x in tl.stream0[:pos] if x.t == e.t and x.kind == "info" and x.f[3] == "start" and x.f[5] == "1")
+                    req = reads[nth:nth + 1]
+                    key = (a, class_mask(req[0])) if req and (req[0][0] & 15) == int(e.f[6]) else None
                     p = polls.get(key)
                     if p is not None:
                         open_poll[a] = key
@@ -149,8 +158,10 @@ def c19_oracle(case, impl):
                             if e.t > want and e.t > p["last"]:
                                 bad("poll-not-starved", "poll %d of association %d due at %d started only at %d although the channel was idle"
                                     % (p["idx"], a, want, e.t), e)
-            # the ring: the served association moves to the back
-            ring.remove(a); ring.append(a)
+            # the ring: the served association moves to the back (a task that starts at t = 0 starts
+            # while the associations are still being registered: it is then the last of the ring)
+            if e.t > 0:
+                ring.remove(a); ring.append(a)
             for p in polls.values():
                 p["quiet_since"] = None
             if kind == "link":
